@@ -1,6 +1,7 @@
 import TantivyModel.Driver.Proto
 import TantivyModel.Model.Grammar.Chars
 import TantivyModel.Model.Grammar.CharsLenient
+import TantivyModel.Model.Grammar.Agree
 /-!
 Line protocol of the C16 character layer.
 
@@ -71,10 +72,10 @@ def handleParseLenient (h : String) : String :=
   | some s => showLOutcome (parseLenient s)
   | none => "bad-op"
 
-/-- `parse2 <hex>` → `<strict outcome>|<lenient outcome>` -/
+/-- `parse2 <hex>` → `<strict outcome>|<lenient outcome>|<featureFree 0/1>` -/
 def handleParseBoth (h : String) : String :=
   match textOfHex h with
-  | some s => showOutcome (parseStrict s) ++ "|" ++ showLOutcome (parseLenient s)
+  | some s => showOutcome (parseStrict s) ++ "|" ++ showLOutcome (parseLenient s) ++ "|" ++ showBool (featureFree s)
   | none => "bad-op"
 
 def handleParse (h : String) : String :=
